@@ -346,13 +346,18 @@ def check_cli(rep, binary, strings, workdir):
     import subprocess
     import time
     import sysjet
-    cache = sysjet.make_cache(os.path.join(workdir, "cache"))
-    env = dict(os.environ, XDG_CACHE_HOME=cache, RUST_BACKTRACE="0")
-    env.pop("JET1090_VERIF", None)
+    import shutil
     procs = []
-    for s in strings:
+    caches = []
+    for k, s in enumerate(strings):
         if "\x00" in s:
             continue  # not representable in argv
+        # one cache directory per process: jet1090 unpacks its aircraft database there at start-up, and concurrent
+        # starts sharing a directory trip over each other's half-written file (a harness artefact, not a parsing matter)
+        cache = sysjet.make_cache(os.path.join(workdir, f"cache{k}"))
+        caches.append(cache)
+        env = dict(os.environ, XDG_CACHE_HOME=cache, RUST_BACKTRACE="0")
+        env.pop("JET1090_VERIF", None)
         try:
             p = subprocess.Popen([binary, "--history-expire", "0", "--", s], stdout=subprocess.DEVNULL, stderr=subprocess.PIPE,
                                  stdin=subprocess.DEVNULL, env=env, cwd=workdir)
@@ -374,8 +379,10 @@ def check_cli(rep, binary, strings, workdir):
         panics = sysjet.payload_panics(err)
         replay = {"mode": "cli", "arg": s}
         # a panic of a receiver task after a source was accepted (nothing listens on the other side) is not a parsing matter
-        parse_panic = [q for q in panics if "source.rs" in q or "cpr.rs" in q or "main.rs" in q]
-        if (not running and p.returncode == 101) or parse_panic:
+        parse_panic = [q for q in panics if "source.rs" in q or "cpr.rs" in q or "main.rs" in q or "/url-" in q or "regex" in q]
+        if not running and p.returncode == 101 and panics and not parse_panic:
+            rep.cls("cli:aborted-after-parsing(not judged)")
+        elif (not running and p.returncode == 101) or parse_panic:
             rep.violation(panic_sig("cli", (parse_panic or panics or ["?"])[0].split("panicked at ")[-1]),
                           f"jet1090 -- {s[:120]!r} aborted (exit {p.returncode}): {(panics or [err[-200:]])[0][:300]}", replay)
         elif running:
@@ -384,6 +391,8 @@ def check_cli(rep, binary, strings, workdir):
             rep.cls("cli:usage-error(exit 2)")
         else:
             rep.cls(f"cli:exit-{p.returncode}")
+    for c in caches:
+        shutil.rmtree(c, ignore_errors=True)
 
 
 def worker(args):
